@@ -515,6 +515,35 @@ def all_cells(tier):
             except Exception:
                 continue
             cells.append(('prog', 'num f-string text %r %s a field' % (part, shape), source))
+    # constants nested inside replacement fields: str / bytes with every escape class (NUL, backslash, line ends, both quotes, braces, non-ASCII,
+    # control characters), alone, with quoted text around the field, as a call argument, a subscript, in a nested f-string and in a format spec
+    nested_values = ['\0', 'a\0b', '\0' + '1', '\\', 'a\\b', 'a\\', '\\n', '\n', '\r', '\t', "'", '"', "'\"", "'''", '\"\"\"', '\xe9', '\x7f', '\x1b', '{', '}', '{}', '', ' ',
+                     b'\\', b'a\\b', b'\0', b'\n', b'\r', b"'", b'"', b"'\"", b'\xff', b'\x80a', b'{', b'', b'\t']
+    if quick:
+        nested_values = nested_values[::2] + [b'\\', '\0']
+    for v_ in nested_values:
+        const = lambda: ast.Constant(value=v_)
+        fv = lambda inner, conv=-1, spec=None: ast.FormattedValue(value=inner, conversion=conv, format_spec=spec)
+        name = lambda n: ast.Name(id=n, ctx=ast.Load())
+        shapes = {
+            'alone': [fv(const())],
+            'quoted text around': [ast.Constant(value="it's \"q\" "), fv(const(), 114), ast.Constant(value=" '")],
+            'call argument': [fv(ast.Call(func=name('g'), args=[const()], keywords=[]))],
+            'subscript': [fv(ast.Subscript(value=name('d'), slice=const(), ctx=ast.Load()))],
+            'nested f-string': [fv(ast.JoinedStr(values=[ast.Constant(value='n '), fv(const())]))],
+            'comparison': [fv(ast.Compare(left=name('c'), ops=[ast.Eq()], comparators=[const()]))],
+        }
+        if isinstance(v_, str) and v_:
+            shapes['format spec'] = [fv(name('c'), -1, ast.JoinedStr(values=[fv(const())]))]
+        for sl, values in shapes.items():
+            tree = ast.Module(body=[ast.Assign(targets=[ast.Name(id='t', ctx=ast.Store())], value=ast.JoinedStr(values=values))], type_ignores=[])
+            try:
+                source = ast.unparse(ast.fix_missing_locations(tree)) + '\n'
+                if ast.dump(ast.parse(source)) != ast.dump(ast.parse(ast.unparse(ast.parse(source)))) or ast.dump(ast.parse(source).body[0].value) != ast.dump(tree.body[0].value):
+                    continue           # the interpreter's own unparser does not give this tree back: not a probe
+            except Exception:
+                continue               # not representable as source on this interpreter (a backslash inside a field before 3.12)
+            cells.append(('prog', 'num constant %r inside a replacement field, %s' % (v_, sl), source))
     for p in PATTERNS:
         cells.append(('prog', 'pat case %s' % p, 'match x:\n  case %s: pass\n' % p))
         cells.append(('prog', 'pat case %s if g' % p, 'match x:\n  case %s if g: pass\n  case _: pass\n' % p))
